@@ -638,6 +638,8 @@ def replay(case, scenario, seed):
     res = Result()
     if "blockwise_uri" in case:
         check_blockwise_uri(res)
+    elif "shared_site" in case:
+        check_shared_site(res)
     elif "abbrev_cfg" in case:
         check_abbrev(res, _tup(case["abbrev_cfg"]), case["wkc"])
     elif "history" in case:
